@@ -30,7 +30,11 @@ func init() {
 	})
 }
 
-var tags = []ap.LangRef{ap.NilLangRef, "en", "fr", "", "de"}
+// the first five tags are the core alphabet (nil tag, empty tag, plain tags); the
+// rest widen it with region sub-tags of tags already present ("en-US" must not
+// read as "en"), script sub-tags, upper case, three-letter tags – and make
+// lists of up to 14 entries without a repeated tag possible
+var tags = []ap.LangRef{ap.NilLangRef, "en", "fr", "", "de", "en-US", "EN", "zh-Hans", "ast", "es", "it", "pt-BR", "nl", "ja"}
 
 var texts = []string{"", "a", "b", "hello", "héllo wörld", "line\\nbreak", "{\"k\":\"v\"}", "-", "<p>x</p>", "é\U0001F600"}
 
